@@ -75,7 +75,7 @@ WAKEUP_FAMILY = {"quick": 12, "thorough": 12, "search": 12, "runner": "test", "t
                  "components": ["mismatch", "monitor:C01+C20", "monitor:C04+C20", "monitor:C02+C20"]}
 CHOREO_FAMILY = {"quick": 28, "thorough": 120, "search": 60, "runner": "test", "test": "TestChoreo", "timeout_s": 60,
                  "env": {"GODEBUG": "asyncpreemptoff=1", "GOMAXPROCS": "1"},
-                 "components": ["mismatch", "monitor:C01+C20", "monitor:C02+C20", "monitor:C18+C20"]}
+                 "components": ["mismatch", "monitor:C01+C20", "monitor:C02+C20+C10", "monitor:C18+C20"]}
 
 
 RACESTRESS_FAMILY = {"quick": 0, "thorough": 2500, "search": 700, "runner": "test", "test": "TestRaceStress", "race": True,
@@ -251,7 +251,7 @@ PROPS = {
                            # entries restored from their record are served under every Accept-Encoding
                            "negotiate": {"quick": 150, "thorough": 4000, "search": 1500, "components": NEGOTIATE_COMPONENTS}}),
     "C10": sys_prop(["store calls return (possibly with an error): a call that never returns is a hang of the store client, not modelled"],
-                    "C01/C02 theorems hold for all store choices; no immortal/empty hit; bad record = miss; memory hits need no store."),
+                    "C01/C02 theorems hold for all store choices; no immortal/empty hit; bad record = miss; memory hits need no store.", with_choreo=True),
     "C18": sys_prop(["a purge issued while a fetch is in flight does not cancel it: its result may be stored afterwards (stated caveat)"],
                     "purge_effective, next request refetches, absent-key no-op, never strands (measure unchanged, progress), other keys untouched (dispatcher frame).", with_choreo=True,
                     extra={"edge": {"quick": 2, "thorough": 40, "search": 6, "no_cases": True}}),
